@@ -132,6 +132,38 @@ CHECKS = {
             'Bound/ordering clauses only for fully defined columns (as the code documents for undefined entries); ill-conditioned HS columns '
             '(contrast >= 1e15) counted, not asserted.',
             '2/C17'),
+    'C03': ('model_checking',
+            'configuration products with per-run well-formedness oracle; deviation-bounded enumeration of backend fault placements (fault_enumeration within model checking)',
+            'config: full products of configurations (the C01 products, every single step-size constraint switched off and all off, two '
+            'solver step-fraction settings, temperatures inside/on/outside the two-phase region, jumps up and down, all site types, fixed '
+            'and adaptive grids with PSD recording) - every run must terminate at exactly the requested time with strictly increasing '
+            'time stamps, equal-length finite histories, non-negative PSDs at every step, fractions/compositions in range. faults: for '
+            'each backend method every placement of 0 and 1 (thorough: also 2) documented "no result" answers among the first K=25 '
+            '(thorough 40; pairs among 16) interceptable calls, on binary and ternary, both iterators, empty and preloaded PSD.',
+            'Analytic backends; a fault is None for getGrowthAndInterfacialComposition, the previous/None impingement factor, (None, None) '
+            'for getDrivingForce and the -1 marker for getInterfacialComposition; horizon 8000 (jumps 20000) steps = non-termination. '
+            'KNOWN FINDING: ternary/RK4/temperature jump stays at the minimum step (recorded).',
+            '2/C03'),
+    'C18': ('model_checking',
+            'exhaustive formula lattices against separately written edge/screw references; per-step monitoring of grain-growth and coupled runs',
+            'formulas: theta x all subsets of the five cutting contributions x phase addressing x line-tension model over an 11x9 radius x '
+            'spacing lattice (incl. 0, sub-core radii, spacing below the core) - every contribution finite and >= 0, min rule, total >= '
+            'parts and monotone, mixed-dislocation formulas reduce to independent edge (90 deg) and screw (0 deg) references. grain: size '
+            'distributions x drag levels x grids x iterators, every accepted grain step is a state (third moment 1, |cG| <= |g|, sign, '
+            'frozen beyond the freezing drag, mean size non-decreasing at z=0). coupled: analytic precipitation host with a StrengthModel '
+            'and a GrainGrowthModel attached, 1-3 solve calls: after every host step history lengths equal host steps+1 and the grain '
+            'clock equals the host clock.',
+            'Edge/screw references for J=1; tolerance 4e-5 / 8e-3 where kawin\'s own formula carries a rounded literal.',
+            '2/C18'),
+    'C20': ('model_checking',
+            'full product of model x recording x save point x file name round trips compared bit for bit; surrogate product over a recording stub',
+            'Precipitation (1-3 phases, binary/ternary), SinglePhase and Homogenization models: save after solve call 1/2/3 with/without '
+            'extension, load into a fresh model of the same configuration, every saved array / PBM field / aspect ratio / profile compared '
+            'bit for bit. Surrogates (General/Binary/Multicomponent) over a recording stub and Al-Zr: every subset of trainable quantities '
+            'x grid (linear/log/single, broadcast) - untrained getters must call the same-named method with the same arguments and hand '
+            'back the identical object, trained ones reproduce training targets (1e-6), reloaded ones predict identically.',
+            'The continuation of a reloaded model is observed but not asserted (not part of the statement; hidden state is not saved).',
+            '2/C20'),
 }
 
 NOT_YET = {}
